@@ -223,6 +223,11 @@ def declare(spec):
                   "len(self.history) == 1 and len(self.history[0]) == 2 and self.history[0][0] == simulation.current_time")],
         props=["C17"])
 
+    # ---- a blockage moves nobody: the population trackers leave their state alone when a customer becomes blocked
+    for cls_ in ["NodePopulation", "NodePopulationSubset", "GroupedNodePopulation", "NodeClassMatrix"]:
+        add(spec, cls_ + ".change_state_block", refines="StateTracker.change_state_block", types={"node": NODE, "destination": NODE, "ind": IND},
+            modifies=[], ensures=[], props=["C17"])
+
     # ---- the ghost protocol of contracts/c_assumed.py is tracker-independent: every refinement performs the same ghost
     # statement and re-proves the class-level postcondition (so each built-in tracker is checked to refine it)
     for key, c in list(spec.contracts.items()):
@@ -237,3 +242,14 @@ def declare(spec):
             c.ghost_updates.append(("counted_class", "ind", "None"))
             c.ensures.append(("C17:no-longer-counted", "counted_class(ind) is None"))
             c.modifies.append("counted_class@ind")
+
+    # ---- reneging: StateTracker.change_state_renege is inherited by every tracker and must be the release delta of that tracker
+    # (a reneging customer leaves the tracked state exactly like a departing one); verified once per receiver class
+    REN = {"node": NODE, "destination": DEST, "ind": IND, "blocked": "bool"}
+    for rc in ["SystemPopulation", "NodePopulation", "NodePopulationSubset", "GroupedNodePopulation", "NodeClassMatrix", "NaiveBlocking"]:
+        src = spec.contracts[rc + ".change_state_release"]
+        add(spec, rc + "::StateTracker.change_state_renege", types=REN, requires=list(src.requires), modifies=list(src.modifies),
+            allocates=bool(getattr(src, "allocates", False)), ghost_updates=[],
+            ensures=[(lab.replace("C17:", "C17:renege-as-release:"), e) if isinstance(x, tuple) else x
+                     for x in src.ensures for (lab, e) in [x if isinstance(x, tuple) else ("", x)]],
+            expect_calls={"change_state_release": 1}, props=["C17"])
